@@ -2,8 +2,8 @@ import S3V.Thm.SigV2Verdict
 /-!
 # Lemmas: the verdict of the model is the verdict of the specification (C11)
 
-Outside the finding classes the V2 branches of `check` accept a request for `ak` exactly when the
-specification's `Accepts` holds.
+The V2 branches of `check` accept a request for `ak` exactly when the specification's `Accepts` holds —
+for every request whose header values are `to_str` strings.
 -/
 namespace S3V.SigV2Thm
 open S3V S3V.SigV2
@@ -179,13 +179,6 @@ theorem parsePresigned_expires (q : Pairs) (p : Presigned) (h : parsePresigned q
 
 /-! ## the credentials -/
 
-/-- the region on which the verdicts coincide: `wf` for the mode the request uses. Nothing is asked of
-    the presigned parameters any more: the `Signature` value is compared as the query parser delivers it
-    (repaired, was finding class `signature-double-encoded`) and every non-negative decimal `Expires` is
-    read (repaired, was finding class `expires-out-of-range`) -/
-def wfVerdict (r : SigV2Spec.Req) : Bool :=
-  if SigV2Spec.paramValues r (sp!"Signature") ≠ [] then wf .query r else wf .header r
-
 /-- credentials as the model holds them: an `Expires` before the epoch does not parse in the model, any
     other is held as its instant, clamped to the last one the clock can show -/
 def toPresented (c : SigV2Spec.Creds) : Option Presented :=
@@ -272,23 +265,15 @@ theorem presented_ctxOf (r : SigV2Spec.Req) :
         List.length_cons, List.length_nil, ge_iff_le]
       simpa using this
 
-theorem hasDate_ctxOf (r : SigV2Spec.Req) (h : wf .header r = true) : hasDate (ctxOf r) = SigV2Spec.hasDate r := by
-  simp only [wf, xAmzDateOnce, Bool.and_eq_true, Bool.or_eq_true, decide_eq_true_eq,
-    reduceCtorEq, false_or] at h
-  obtain ⟨⟨-, hx⟩, -⟩ := h
+/-- a time stamp for the code is a time stamp for the specification: any Date line or any x-amz-date line -/
+theorem hasDate_ctxOf (r : SigV2Spec.Req) : hasDate (ctxOf r) = SigV2Spec.hasDate r := by
   unfold hasDate SigV2Spec.hasDate
   have h1 : getAll (ctxOf r).hs (v2b!"date") = SigV2Spec.fieldValues r (sp!"date") :=
     getAll_implHeaders r _
-  have h2 : getUnique (ctxOf r).hs (v2b!"x-amz-date") = theOnly (SigV2Spec.fieldValues r (sp!"x-amz-date")) :=
-    getUnique_implHeaders r _
+  have h2 : getAll (ctxOf r).hs (v2b!"x-amz-date") = SigV2Spec.fieldValues r (sp!"x-amz-date") :=
+    getAll_implHeaders r _
   rw [h1, h2]
-  generalize SigV2Spec.fieldValues r (sp!"date") = D at *
-  generalize SigV2Spec.fieldValues r (sp!"x-amz-date") = X at *
-  match D, X, hx with
-  | [], [], _ => rfl
-  | [], [x], _ => rfl
-  | _ :: _, [], _ => rfl
-  | _ :: _, [x], _ => rfl
+  cases SigV2Spec.fieldValues r (sp!"date") <;> cases SigV2Spec.fieldValues r (sp!"x-amz-date") <;> rfl
 
 theorem credentials_mode (r : SigV2Spec.Req) (c : SigV2Spec.Creds) (h : SigV2Spec.credentials r = some c) :
     c.mode = if SigV2Spec.paramValues r (sp!"Signature") ≠ [] then .query else .header := by
@@ -313,23 +298,36 @@ theorem credentials_mode (r : SigV2Spec.Req) (c : SigV2Spec.Creds) (h : SigV2Spe
         | some x => rw [hv] at h; simp at h; rw [← h]
       · cases h
 
-theorem wf_of_credentials (r : SigV2Spec.Req) (c : SigV2Spec.Creds) (h : wfVerdict r = true)
-    (hc : SigV2Spec.credentials r = some c) : wf c.mode r = true := by
-  rw [credentials_mode r c hc]
-  unfold wfVerdict at h
-  split at h
-  · rename_i hS
-    rw [if_pos hS]
-    exact h
-  · rename_i hS
-    rw [if_neg hS]
-    exact h
+/-- credentials read off the query come with exactly one `Expires` -/
+theorem expiresOnce_of_credentials (r : SigV2Spec.Req) (c : SigV2Spec.Creds)
+    (hc : SigV2Spec.credentials r = some c) : expiresOnce c.mode r = true := by
+  unfold SigV2Spec.credentials at hc
+  split at hc
+  · cases hc
+  · split at hc
+    · unfold SigV2Spec.queryCredentials at hc
+      split at hc
+      · rename_i ak sg ex h1 h2 h3
+        simp [expiresOnce, h3]
+      · cases hc
+    · unfold SigV2Spec.headerCredentials at hc
+      split at hc
+      · cases hv : SigV2Spec.parseAuthorization _ with
+        | none => rw [hv] at hc; cases hc
+        | some x => rw [hv] at hc; simp at hc; rw [← hc]; simp [expiresOnce]
+      · cases hc
 
-/-- outside the finding classes, and with a clock reading `OffsetDateTime` can show (from the epoch to
-    9999-12-31T23:59:59.999999999Z), the code accepts a request for `ak` exactly when the specification does -/
+theorem wf_of_credentials (r : SigV2Spec.Req) (c : SigV2Spec.Creds) (h : valuesVisible r = true)
+    (hc : SigV2Spec.credentials r = some c) : wf c.mode r = true := by
+  simp only [wf, Bool.and_eq_true]
+  exact ⟨h, expiresOnce_of_credentials r c hc⟩
+
+/-- for every request whose header values are `to_str` strings, and with a clock reading `OffsetDateTime`
+    can show (from the epoch to 9999-12-31T23:59:59.999999999Z), the code accepts a request for `ak` exactly
+    when the specification does -/
 theorem accept_iff_spec (hmac : Bytes → Bytes → Bytes) (b64 : Bytes → Bytes) (lookup : Bytes → Option Bytes)
     (nowNs : Int) (r : SigV2Spec.Req) (ak : Bytes) (hnow : 0 ≤ nowNs) (hclock : nowNs ≤ maxDateTimeNs)
-    (h : wfVerdict r = true) :
+    (h : valuesVisible r = true) :
     check hmac b64 lookup nowNs (ctxOf r) = .accept ak ↔ SigV2Spec.Accepts hmac b64 lookup nowNs r ak := by
   rw [check_accept_iff, presented_ctxOf r]
   unfold SigV2Spec.Accepts SigV2Spec.signature
@@ -365,8 +363,7 @@ theorem accept_iff_spec (hmac : Bytes → Bytes → Bytes) (b64 : Bytes → Byte
             · simp only [Option.some.injEq] at hp; rw [← hp]
             · cases hp
           · simp only [Option.some.injEq] at hp; rw [← hp]
-        rw [hmode] at hwf
-        rw [← hasDate_ctxOf r hwf]
+        rw [← hasDate_ctxOf r]
         exact hd (by rw [hm, hmode]; rfl)
       · intro e hce
         unfold toPresented at hp
@@ -401,8 +398,7 @@ theorem accept_iff_spec (hmac : Bytes → Bytes → Bytes) (b64 : Bytes → Byte
         cases hcm : c.mode with
         | header => rfl
         | query => rw [hcm] at hpm; cases hpm
-      rw [hcm] at hwf
-      rw [hasDate_ctxOf r hwf]
+      rw [hasDate_ctxOf r]
       exact hd hcm
     · intro e hpe
       rw [hex] at hpe
